@@ -435,6 +435,7 @@ func (u *UDPServerTransport) receiveMessage() {
 		}
 		address := peerAddr.IP.String()
 		port := peerAddr.Port
+		vt("udp.recv", u, &buf[0], n)
 		zap.L().Info("a UDP packet is received", zap.Int("length", n), zap.String("localAddr", u.localAddr.String()), zap.String("remoteAddr", peerAddr.String()))
 		u.msgParseChannel <- SizedByteArray{b: buf, n: n, msgHandler: func(msg *Message) {
 			u.msgHandler.HandleRawMessage(NewRawMessage(address, port, u, u.receivedSupport, msg))
@@ -449,6 +450,7 @@ func (u *UDPServerTransport) startParseMessage() {
 		reader := bufio.NewReaderSize(bytes.NewBuffer(sized_byte_array.b), sized_byte_array.n)
 		msg, err := ParseMessage(reader)
 		u.msgBufPool.Free(sized_byte_array.b)
+		vt("udp.parse", u, &sized_byte_array.b[0], sized_byte_array.n, err == nil)
 		if err == nil {
 			sized_byte_array.msgHandler(msg)
 		}
@@ -550,6 +552,7 @@ func (t *TCPServerTransport) receiveMessage(conn net.Conn) {
 	zap.L().Info("start to receive sip message from tcp", zap.String("peerAddr", peerAddr), zap.String("peerPort", remotePort), zap.String("localAddr", localAddr), zap.String("localPort", localPort))
 	for {
 		msg, err := ParseMessage(reader)
+		vt("tcp.msg", t, conn, err == nil)
 		if err != nil {
 			conn.Close()
 			zap.L().Error("Fail to parse message", zap.String("peerAddr", peerAddr), zap.String("peerPort", remotePort), zap.String("localAddr", localAddr), zap.String("localPort", localPort), zap.String("error", err.Error()))
